@@ -178,7 +178,13 @@ def _game(kind="switched"):
 
     quiet()
     chdriver.OPAQUE_SYMBOLIC_FORMAT = False
-    cfg = mini_scenario(kind, with_green=False, with_red=False)
+    if kind == "wireless":  # the shipped wireless-WAN scenario (two wireless routers, no agents)
+        import yaml
+
+        with open("/repo/tests/assets/configs/wireless_wan_network_config.yaml") as fh:
+            cfg = yaml.safe_load(fh)
+    else:
+        cfg = mini_scenario(kind, with_green=False, with_red=False)
     game = PrimaiteGame.from_config(copy.deepcopy(cfg))
     return game
 
@@ -515,12 +521,14 @@ HARNESSES = {
         "quick": [{"fixed": {"kind": "switched", "ns": n, "mut": m, "couple": True}, "timeout": 280} for n in (0, 2) for m in (-1, 3, 4, 103)]
         + [{"fixed": {"kind": "switched", "ns": 0, "mut": m, "svc_state": 0, "app_state": 0}, "timeout": 280} for m in (104, 105, 106, 107)]
         + [{"fixed": {"kind": "switched", "ns": 0, "mut": -1, "svc_state": 0, "app_state": 0, "fstate": f}, "timeout": 280} for f in (1, 2)]
-        + [{"fixed": {"kind": "firewalled", "node_name": "firewall_1", "ns": n, "mut": m, "svc_state": 0, "app_state": 0}, "timeout": 280} for n, m in ((0, -1), (0, 3), (2, -1))],
+        + [{"fixed": {"kind": "firewalled", "node_name": "firewall_1", "ns": n, "mut": m, "svc_state": 0, "app_state": 0}, "timeout": 280} for n, m in ((0, -1), (0, 3), (2, -1))]
+        + [{"fixed": {"kind": "wireless", "node_name": "router_1", "ns": n, "mut": -1, "svc_state": 0, "app_state": 0}, "timeout": 280} for n in (0, 2)],
         # one job per (topology, power state, mutation): unmodified with the full 6x3 service/application product,
         # every misspelt position 0..8 and every truncation length 0..8 with the 6 coupled state pairs
         "thorough": [{"fixed": {"kind": k, "ns": n, "mut": -1}, "timeout": 1500} for k in ("switched", "routed") for n in range(4)]
         + [{"fixed": {"kind": k, "ns": n, "mut": m, "couple": True}, "timeout": 900} for k in ("switched", "routed") for n in range(4) for m in list(range(0, 9)) + list(range(100, 109))]
         + [{"fixed": {"kind": "firewalled", "node_name": "firewall_1", "ns": n, "couple": True}, "timeout": 1500} for n in range(4)]
+        + [{"fixed": {"kind": "wireless", "node_name": "router_1", "ns": n, "couple": True}, "timeout": 1500} for n in range(4)]
         + [{"fixed": {"kind": "switched", "ns": n, "couple": True, "fstate": f}, "timeout": 1500} for n in (0, 2) for f in (1, 2)],
         "cover": ["reached", "not_reached", "deleted_target"],
         "bounds": {
